@@ -200,7 +200,7 @@ type InfoLite struct {
 type ProbeLite struct {
 	InitialDelay, Period, Timeout, Success, Failure int
 	HTTP                                            bool
-	Exec                                            string
+	Exec, ExecDir                                   string
 	Host, Scheme, Path, Port                        string
 	NumPort                                         int
 }
@@ -211,12 +211,17 @@ func probeLite(p *health.Probe) *ProbeLite {
 	}
 	l := &ProbeLite{InitialDelay: p.InitialDelay, Period: p.PeriodSeconds, Timeout: p.TimeoutSeconds, Success: p.SuccessThreshold, Failure: p.FailureThreshold}
 	if p.Exec != nil {
-		l.Exec = p.Exec.Command
+		l.Exec, l.ExecDir = p.Exec.Command, p.Exec.WorkingDir
 	}
 	if p.HttpGet != nil {
 		l.HTTP, l.Host, l.Scheme, l.Path, l.Port, l.NumPort = true, p.HttpGet.Host, p.HttpGet.Scheme, p.HttpGet.Path, p.HttpGet.Port, p.HttpGet.NumPort
 	}
 	return l
+}
+
+// FileSnap: a log file as it was at the moment an observer read it
+type FileSnap struct {
+	Name, Content, Status string
 }
 
 // Audit is a consistent picture of the runner taken by one client task in one go
@@ -230,6 +235,7 @@ type Audit struct {
 	LogErrs    map[string]string   `json:"log_errs"`
 	Gone       map[string]string   `json:"gone"` // name -> "" if GetProcessState still answers, else its error
 	FreshNames []string            `json:"fresh_names,omitempty"`
+	FreshInfos map[string]InfoLite `json:"fresh_infos,omitempty"`
 	FreshErr   string              `json:"fresh_err,omitempty"`
 }
 
@@ -299,6 +305,11 @@ func (rc *runCtx) audit(op *Op) *Audit {
 			for n, c := range prj.Processes {
 				if c.Name == op.Arg {
 					a.FreshNames = append(a.FreshNames, n)
+					if a.FreshInfos == nil {
+						a.FreshInfos = map[string]InfoLite{}
+					}
+					cc := c
+					a.FreshInfos[n] = infoLite(&cc)
 				}
 			}
 			sort.Strings(a.FreshNames)
@@ -390,7 +401,7 @@ func RunScenario(t *testing.T, sc *Scenario, tape []int32) *RunResult {
 	simsync.HookFn = func(kind, a, b string) {
 		simlog.Add(simlog.Event{Kind: "sut." + kind, Subj: a, A: b})
 	}
-	defer func() { simlog.Cur = nil; simos.W = nil; simsync.HookFn = nil }()
+	defer func() { simlog.Cur = nil; simlog.OnAdd = nil; simos.W = nil; simsync.HookFn = nil }()
 
 	var obsSem, sweepSem, finSem simsync.Sem
 	finishing := false
@@ -473,7 +484,9 @@ func RunScenario(t *testing.T, sc *Scenario, tape []int32) *RunResult {
 		simsync.GoNamed("Run", func() {
 			simlog.Add(simlog.Event{Kind: "run.call"})
 			var err error
-			if sc.ViaCmd {
+			if sc.ViaCmd && sc.Keep {
+				err = pccmd.VerifRunProject(runner, true)
+			} else if sc.ViaCmd {
 				err = pccmd.VerifRunHeadless(runner)
 			} else {
 				err = runner.Run()
@@ -710,6 +723,26 @@ func (rc *runCtx) doOp(op *Op) (any, error) {
 		return p.GetLexicographicProcessNames()
 	case "loglen":
 		return p.GetLogLength(), nil
+	case "filewhendone":
+		// what an observer sees who reads the log file of a process the moment the supervisor
+		// reports that it has ended (it is woken at the very step of that state change):
+		// op.Args[0] is the file, relative to the scratch directory
+		sem := &simsync.Sem{}
+		name := op.Arg
+		status := ""
+		prev := simlog.OnAdd
+		simlog.OnAdd = func(e *simlog.Event) {
+			if prev != nil {
+				prev(e)
+			}
+			if e.Kind == "sut.state" && e.Subj == name && status == "" && (e.A == types.ProcessStateCompleted || e.A == types.ProcessStateError || e.A == types.ProcessStateSkipped) {
+				status = e.A
+				sem.Post()
+			}
+		}
+		sem.Wait()
+		b, rerr := os.ReadFile(rc.tmp + "/" + op.Args[0])
+		return &FileSnap{Name: op.Args[0], Content: string(b), Status: status}, rerr
 	case "subscribe":
 		n := 0
 		conn := pclog.NewConnector(func(lines []string) { n += len(lines) }, func(s string) (int, error) { n++; return len(s), nil }, op.N)
